@@ -257,6 +257,22 @@ def run_counts(ctx, rng, idx):
         else:
             Yh = np.vstack([Yh, Yh[:1]])
             name = 'unequal-lengths'
+        if hk < 4 and rng.random() < 0.4:
+            # an undeclared id that equals a legal one modulo 2^8, 2^16 or
+            # 2^32 (what a narrowing cast would turn it into)
+            w = [8, 16, 32][int(rng.integers(0, 3))]
+            wd = np.int64 if w == 32 else (
+                np.int32 if np.dtype(sd).itemsize < 4 else sd)
+            side, f, n = ((Xh, fx, nx) if hk in (0, 2) else (Yh, fy, ny))
+            side = side.astype(wd)
+            k = int(rng.integers(1, 3)) * (-1 if hk < 2 else 1)
+            side[int(rng.integers(0, T)), int(rng.integers(0, f))] = \
+                int(rng.integers(0, int(np.min(n)))) + k * 2 ** w
+            if hk in (0, 2):
+                Xh = side
+            else:
+                Yh = side
+            name += '/alias-2^%d' % w
         ctx.seen('hostile_kinds', name)
         try:
             with warnings.catch_warnings():
